@@ -226,12 +226,23 @@ def dispatch(rep, rel):
     pm = parent_map(fi.node)
     want = {"'generic'": "_canon_generic", "'wl'": "_canon_wl", "'nauty'": "_canon_nauty"}
     got = {}
-    for r in returns_of(fi.node):
-        gs = [norm(t) for t, s in guards_of(pm, r, fi.node) if s]
+    from ..rules import provenance as PV
+    fdefs = local_defs(fi.node)
+    ret_roots = [x for r in returns_of(fi.node) if r.value is not None for x in PV.all_roots(fdefs, r.value)]
+    for c in [c for c in walk_local(fi.node) if isinstance(c, ast.Call) and (call_name(c) or "").startswith(("_canon_", "canon_"))]:
+        if not any(c is x for x in ret_roots):
+            continue   # not what is returned
+        gs = [norm(t) for t, s in guards_of(pm, c, fi.node) if s]
         for g in gs:
             if g.startswith("self.backend == "):
-                got[g.split("== ")[1]] = call_name(r.value) if isinstance(r.value, ast.Call) else norm(r.value)
+                got[g.split("== ")[1]] = call_name(c)
     rep.ob("O8.1", "R14", fi, all(got.get(k) == v for k, v in want.items()), got, "each back-end name dispatches to its own canonicaliser")
+    # what comes back is always the output of a back-end: the input graph itself is never handed back (whatever it claims to be - graph-level
+    # attributes travel with copy(), relabel_nodes() and subgraph().copy(), so a mark on the graph says nothing about its current numbering)
+    params = [p_ for p_ in fi.params if p_ != "self"]
+    passthrough = [x for x in ret_roots if isinstance(x, ast.Name) and x.id in params]
+    rep.ob("O8.1", "R14", fi, not passthrough, passthrough[0] if passthrough else f"{len(ret_roots)} returned values",
+           "the canonical graph is computed from the graph given in this call on every path (the input is never returned as it came)")
     cs = rep.f(rel, GC + "canonical_signature")
     rets = returns_of(cs.node)
     ok = bool(rets) and norm(rets[-1].value) == "_digest(self._serialise(self._make_canonical_graph(graph)))"
